@@ -349,7 +349,9 @@ pub fn load(config: &Config) -> Result<Context> {
         match try_load_currency(&config.currency, &mut ctx, &search_path) {
             Ok(()) => (),
             Err(err) => {
-                println!("{:?}", err.wrap_err("Failed to load currency data"));
+                // Not on stdout: in a sandboxed child that is the
+                // channel to the parent process.
+                eprintln!("{:?}", err.wrap_err("Failed to load currency data"));
             }
         }
     }
@@ -463,8 +465,10 @@ fn cached(
     };
 
     if let Ok(file) = File::open(&path) {
-        // Indicate error even though we're returning success.
-        println!(
+        // Indicate error even though we're returning success. Not on
+        // stdout: in a sandboxed child that is the channel to the parent
+        // process.
+        eprintln!(
             "{:?}",
             Report::wrap_err(
                 err,
